@@ -6,6 +6,7 @@
 From Coq Require Import List ZArith NArith Bool.
 From PC Require Import Base.Outcome Base.Py Gen.Transforms Model.Transforms Model.Strips Model.Triangulate
   Model.IndexedList Model.Traverse Model.PurityQueries.
+From PC Require Model.PrimCtor.
 From PC Require Import Model.Purity.
 Import ListNotations.
 
@@ -47,7 +48,7 @@ Fixpoint inputs_eqb (a b : list input) : bool :=
   end.
 
 Definition doc_of (vc : list nat) (rows : list row) (src : list (N * list input)) (lib : il) : cdoc Z :=
-  CDoc Z vc rows src lib [] 0%N [] None None.
+  CDoc Z vc rows src lib [] 0%N [] (PrimCtor.Prim PrimCtor.KTri 1 0 None None [] [] [] [] None) None None [] 0%N.
 
 Definition tri_res_ok (r : cres Z) (seen : option (list (tri row))) : bool :=
   match r, seen with
